@@ -11,7 +11,7 @@ def _used_buses(sc):
         if h.get('kind') == 'forward':
             used.add(h['to'])
         for op in h.get('prog', []):
-            if op[0] in ('dispatch', 'dispatch_await', 'redispatch', 'redispatch_self'):
+            if op[0] in ('dispatch', 'dispatch_await', 'dispatch_noloop', 'redispatch', 'redispatch_self'):
                 used.add(op[1])
     for c in sc['callers']:
         for op in c['prog']:
